@@ -333,17 +333,20 @@ theorem chkN_sound (g : Bits → Bits) (hg : ∀ m, g m = V.H.gen m) (y : Bits)
     · rw [fromAll, dataRaw, putLoop_length, zeros_length, h1l]
     · rw [packLE_fromAll, packLE_allRaw, h5]
 
-/-- the check on the zero word and the `k + c + 1` unit words -/
-def basisOk (g : Bits → Bits) : Bool :=
-  V.chkN g (zeros (V.k + V.c + 1))
-    && (List.range (V.k + V.c + 1)).all (fun i => V.chkN g (unit (V.k + V.c + 1) i))
+/-- the check on the unit words `lo … lo + len - 1` (the basis is split over several modules that Lake
+builds in parallel) -/
+def basisRange (g : Bits → Bits) (lo len : Nat) : Bool :=
+  (List.range' lo len).all (fun i => V.chkN g (unit (V.k + V.c + 1) i))
 
-/-- from the kernel-evaluated basis check to every input word of the encoder core -/
-theorem facts_of_basisOk (hG : ∀ r ∈ V.H.G, r.length = V.H.n) (h : V.basisOk (genC V.H) = true)
-    (y : Bits) (hy : y.length = V.k + V.c + 1) : V.Facts y := by
-  simp only [basisOk, Bool.and_eq_true, List.all_eq_true, List.mem_range] at h
-  have hg := genC_eq V.H hG
-  exact V.facts_of_basis (V.chkN_sound _ hg _ h.1) (fun i hi => V.chkN_sound _ hg _ (h.2 i hi)) y hy
+theorem facts_of_basisRange (hG : ∀ r ∈ V.H.G, r.length = V.H.n) (lo len : Nat)
+    (h : V.basisRange (genC V.H) lo len = true) (i : Nat) (h1 : lo ≤ i) (h2 : i < lo + len) :
+    V.Facts (unit (V.k + V.c + 1) i) := by
+  simp only [basisRange, List.all_eq_true, List.mem_range'_1] at h
+  exact V.chkN_sound _ (genC_eq V.H hG) _ (h i ⟨h1, h2⟩)
+
+theorem facts_of_zero (hG : ∀ r ∈ V.H.G, r.length = V.H.n)
+    (h : V.chkN (genC V.H) (zeros (V.k + V.c + 1)) = true) : V.Facts (zeros (V.k + V.c + 1)) :=
+  V.chkN_sound _ (genC_eq V.H hG) _ h
 
 end VCode
 end Dmr.Vbptc
